@@ -19,7 +19,8 @@ from collections import Counter
 VERIF = os.path.dirname(os.path.dirname(os.path.abspath(__file__)))
 REPO = os.environ.get("DSIM_REPO", "/repo")
 REPLAY_DIR = os.path.join(VERIF, "replays")
-EVIDENCE_DIR = os.path.join(VERIF, "evidence")
+# evidence describes runs against /repo; runs against another copy (DSIM_REPO, used by the seeded-change tools) keep theirs apart
+EVIDENCE_DIR = os.path.join(VERIF, "evidence") if REPO == "/repo" else os.path.join(VERIF, "replays", "evidence-other-repo")
 KNOWN_FILE = os.path.join(VERIF, "known_findings.json")
 
 PROPS = {"C08": "c08", "C09": "c09", "C15": "c15", "C16": "c16", "C18": "c18", "C19": "c19"}
